@@ -23,7 +23,8 @@ const DIDS: [&str; 3] = ["", DID1, "did:iota:0x222222222222222222222222222222222
 fn rser(set: &[u32]) -> Vec<u8> { let b: RoaringBitmap = set.iter().copied().collect(); let mut o = vec![]; b.serialize_into(&mut o).unwrap(); o }
 fn zcomp(data: &[u8]) -> Vec<u8> { let mut e = ZlibEncoder::new(Vec::new(), Compression::default()); e.write_all(data).unwrap(); e.finish().unwrap() }
 fn zdecomp(data: &[u8]) -> Option<Vec<u8>> { let mut d = ZlibDecoder::new(Vec::new()); d.write_all(data).ok()?; d.finish().ok() }
-fn rde(data: &[u8]) -> Option<Vec<u32>> { RoaringBitmap::deserialize_from(data).ok().map(|b| b.iter().collect()) }
+/// a corrupted stream can deserialise to a roaring structure whose containers are out of order (members not strictly increasing): that is not a bitmap
+fn rde(data: &[u8]) -> Option<Vec<u32>> { RoaringBitmap::deserialize_from(data).ok().map(|b| b.iter().collect::<Vec<u32>>()).filter(|s| s.windows(2).all(|w| w[0] < w[1])) }
 fn unz(z: &[u8]) -> Option<Vec<u32>> { zdecomp(z).and_then(|d| rde(&d)) }
 fn b64u_dec(t: &str) -> Option<Vec<u8>> { BaseEncoding::decode(t, Base::Base64Url).ok() }
 fn b64s_dec(t: &str) -> Option<Vec<u8>> { BaseEncoding::decode(t, Base::Base64).ok() }
@@ -162,7 +163,6 @@ fn case3t(tcode: i64, eptag: i64, text: &str) -> Vec<i64> {
   let mut c = vec![3, tcode, eptag]; put_bytes(&mut c, text.as_bytes());
   let cands = text.strip_prefix(PREFIX).map(candidates).unwrap_or_default();
   c.push(cands.len() as i64);
-  // a corrupted stream can deserialise to a roaring structure whose members are not strictly increasing: recorded as the marker set
   for z in cands { put_bytes(&mut c, &z); match unz(&z) { Some(s) if s.windows(2).all(|w| w[0] < w[1]) => { c.push(1); c.push(s.len() as i64); c.extend(s.iter().map(|x| *x as i64)); } Some(_) => { c.extend([1, 1, NONCANON]); } None => { c.push(0); c.push(0); } } }
   c
 }
